@@ -11,7 +11,13 @@ RULE = ("model tie as C16 (same models, whole traces) on INTACT disk states: eve
         "reference v2 incl. single file WITHOUT info.length, reference hybrid WITHOUT trailing pad entry): Checker(...).results() "
         "== 100 and is a float, through the payload root AND through its parent directory (same verdict), a part through cli.execute "
         "and `python -m torrentfile recheck`.  Every 9th tree is placed in a parent directory named like the payload on purpose "
-        "(known finding D33, routed through classify).  Aimed class: recorded digest valid UTF-8 (D37).  Non-trivial = distinct and "
+        "(known finding D33, routed through classify).  Aimed class: recorded digest valid UTF-8 (D37).  REUSED OBJECTS: per tree and "
+        "metafile kind three Checker objects are created on a DAMAGED / partly or wholly MISSING tree and asked once (results(); "
+        "iter_hashes() run to its end then _result; alternating); the intact content is put back and each is asked again: exactly "
+        "100.0.  AIMED layouts (model tie with the extracted FileHasher model and end to end over v2-class, v2-asm, hybrid-class, "
+        "hybrid-asm, reference v2, reference hybrid, also single file): piece lengths 64 KiB and 128 KiB (4 / 8 blocks per piece) with "
+        "files of 3, 5, 6, 7 blocks below one piece (exact, one byte less, one byte into the last block) and multi-piece files whose "
+        "LAST piece has such a block count (the merkle padding of a partial piece).  Non-trivial = distinct and "
         "hits a boundary class (Appendix B, recheck row).")
 TRUSTED_BASE = rc.TRUSTED_BASE
 ASSUMPTIONS = rc.ASSUMPTIONS
